@@ -486,6 +486,22 @@ func LibAlive() int {
 	return n
 }
 
+// LibPendingAt counts the live library goroutines whose next operation is at the given site
+// (called by a client while everything else is at rest).
+func LibPendingAt(siteOf func(site int) bool) int {
+	s := S
+	if s == nil {
+		return 0
+	}
+	n := 0
+	for _, g := range s.gs {
+		if !g.Client && !g.done && g.pend != nil && siteOf(g.pend.Site) {
+			n++
+		}
+	}
+	return n
+}
+
 // PoolMiss decides whether sync.Pool.Get drops its cache (the real pool may, at any time).
 func PoolMiss() bool {
 	s := S
